@@ -22,3 +22,10 @@
 (declare-fun chrstr_ (INTSORT) Str)
 (declare-fun repl_apply ((Array INTSORT Str) INTSORT INTSORT Str) Str)
 (declare-fun xtranslate (Str Str Str) Str)
+; normalize-space() (C09). rune_(s, i) / nrunes_(s): the i-th rune and the number of runes of s ([]rune(s)).
+; nsAcc(s, i): the text normalize-space has produced after the first i runes of the trimmed string s
+; (instances nsZero, nsStep in the contract file: a whitespace rune followed by another one is dropped,
+; any other whitespace rune becomes one space, other runes are kept).
+(declare-fun rune_ (Str INTSORT) Rune)
+(declare-fun nrunes_ (Str) INTSORT)
+(declare-fun nsAcc (Str INTSORT) Str)
